@@ -67,3 +67,35 @@ CONTRACTS[F + "prune_token_dictionary#comparisons"] = dict(
         "forall(0, len(infrequent_tokens), lambda k: 0 <= infrequent_tokens[k] and infrequent_tokens[k] < len(token_frequencies))",
     ],
 )
+
+# ---------------------------------------------------------------- re-indexing of the sequences (C14, C13, C01)
+# Tokens are abstract ids (ints); the dictionary maps token -> index.  Segment: from `if masking is None:` up to (not including)
+# the construction of the inverse dictionary, i.e. the code that deletes or replaces removed tokens.
+_D = "token_dictionary"
+CONTRACTS[F + "preprocess_token_sequences#reindex"] = dict(
+    segment=dict(start="if masking is None:", start_ordinal=1, end=None),
+    locals=dict(token_sequences="list[int[]]", token_dictionary="dict[int,int]", masking="int"),
+    variants=[dict(masking="int"), dict(masking="none")],
+    local_types=dict(result_sequences="list[int[]]"),
+    requires=[],
+    ensures=[
+        "len(result_sequences) == len(token_sequences)",
+        # with a mask: positions are preserved, a removed token becomes the index m = number of real tokens, the mask is the one extra last entry
+        "implies(not is_none(masking), forall(0, len(token_sequences), lambda s: len(result_sequences[s]) == len(token_sequences[s])))",
+        "implies(not is_none(masking), token_dictionary[masking] == card(token_dictionary) - 1 and masking in token_dictionary)",
+        "implies(not is_none(masking), forall(0, len(token_sequences), lambda s: forall(0, len(token_sequences[s]), lambda j: "
+        "result_sequences[s][j] == (token_dictionary[token_sequences[s][j]] if (token_sequences[s][j] in token_dictionary and token_sequences[s][j] != masking) else card(token_dictionary) - 1))))",
+        # the dictionary object that was passed in (the user's, or the fitted one) is not edited
+        "unchanged(token_dictionary)",
+        # without a mask: removed tokens are deleted, the sequence can only get shorter
+        "implies(is_none(masking), forall(0, len(token_sequences), lambda s: len(result_sequences[s]) <= len(token_sequences[s])))",
+    ],
+    loops={
+        "for#1": dict(invariant=["len(result_sequences) == _k_for1",
+                                 "forall(0, _k_for1, lambda s: len(result_sequences[s]) <= len(token_sequences[s]))"]),
+        "for#2": dict(invariant=["len(result_sequences) == _k_for2", "not (masking in token_dictionary)",
+                                 "forall(0, _k_for2, lambda s: len(result_sequences[s]) == len(token_sequences[s]))",
+                                 "forall(0, _k_for2, lambda s: forall(0, len(token_sequences[s]), lambda j: "
+                                 "result_sequences[s][j] == (token_dictionary[token_sequences[s][j]] if token_sequences[s][j] in token_dictionary else card(token_dictionary))))"]),
+    },
+)
